@@ -62,8 +62,8 @@ type CaseC struct {
 	Slots  int      `json:"slots,omitempty"` // number of slots (>= NConn); 0 means NConn
 	Bases  []string `json:"bases,omitempty"` // bases of the related-name groups for agent types / listener kinds / ExC2 listeners (labels only)
 	Ops    []SOp    `json:"ops"`
-	Final  []int    `json:"final"`  // order in which the slots still connected leave at the end
-	Abrupt []bool   `json:"abrupt"` // per slot: TCP close without a close frame
+	Final  []int    `json:"final"`         // order in which the slots still connected leave at the end
+	Abrupt []bool   `json:"abrupt"`        // per slot: TCP close without a close frame
 	Cfg    *FixCfg  `json:"cfg,omitempty"` // generated configuration / environment of the teamserver (config_test.go; XFF, WebHook, TZ only; nil: the default one)
 }
 
